@@ -20,6 +20,18 @@ CHECKS = {
   text="Bounded symbolic model checking of the real flatten/unflatten on enumerated tree skeletons with symbolic string (z3 String) and integer keys: z3 decides key equality, so distinct paths -> distinct flat keys, exact restoration of nesting/key types/leaf identity and dropping of leafless sub-dicts are proved for all key values; OptimizerModule.state_dict/load_state_dict on enumerated object graphs with symbolic tensor contents.",
   note="Trusted: json.dumps/loads replaced by an injective invertible encoding of key lists (the documented round trip), backed by a concrete adversarial-key pass through the real json; skeleton depth<=3/leaves<=3 (quick), depth<=4/leaves<=4 (thorough); key strings of length<=4.",
   ref="DESIGN.md section 3 C16"),
+ "C01": dict(
+  text="Bounded symbolic model checking of the real optimizer (constructor, step(), distributor, preconditioner lists) on the symbolic torch stand-in against a per-block reference model of the documented update rule: all ten continuous hyperparameters, all parameter and gradient entries (and gradient presence, scheduler changes of lr/weight decay) are solver variables; every equality regime of the hyperparameters that the code tests for is explored; after each step parameters, every checkpointable state tensor, the step counter and the arguments/timing of every inverse-root computation are proved equal to the reference (polynomial identities, z3).",
+  note="Trusted: real arithmetic for floats (rounding outside the claim, dtypes as tags); matrix_inverse_root is a recording stub (fresh symmetric matrix, a function of its arguments); shapes/categorical options enumerated within the bound (<=8 elements per parameter, T<=2 plain / <=4 re-based); diagonality fast-path flag followed on the generic side only; grafting guard calibrated from the implementation within [0,1e-12]; reference model written from the docstrings/README.",
+  ref="DESIGN.md section 3 C01"),
+ "C02": dict(
+  text="Bounded symbolic model checking: (1) the real optimizer in warm-up against reference models of torch.optim SGD/Adagrad/RMSprop/Adam/AdamW (validated against the real classes in every run) for symbolic hyperparameters, parameters, gradients and presence patterns on blocked/merged layouts; (2) norm transfer: for the recorded Shampoo direction S, grafted direction G and applied direction D of every block z3 proves D*(|S|+d)=|G|*S, and a z3 side lemma derives collinearity, orientation and (1-1e-9)|G|<=|D|<=|G| for |S|>=1e-3.",
+  note="Trusted: real arithmetic; SGD dampening 0; grafting beta2 != 1 for RMSprop/Adam (beta2 = 1 is Shampoo's documented AdaGrad mode, outside the range where the formulations coincide); Adam variants with all gradients present; T=2..3; recording wrappers on precondition()/_precondition_and_grafting (renamed internals = harness error).",
+  ref="DESIGN.md section 3 C02"),
+ "C04": dict(
+  text="Bounded symbolic model checking with one symbolic boolean per parameter and step for gradient presence (z3 enumerates all pattern sequences): absent parameters keep parameter and every state tensor (same terms, same objects), an all-absent group keeps its step counter, present parameters equal the per-parameter reference run, and every masked per-block list equals the local list compressed by the current selector.",
+  note="Trusted: as C01; generic equality regime of the hyperparameters only (special values are C01's); 2-3 parameters with equal-shaped blocks, <=2 groups, T<=3 re-based (quick) / <=5 (thorough); masked-list alignment reads internal attributes.",
+  ref="DESIGN.md section 3 C04"),
 }
 NA = {
  "C18": "the compiled step exists only as TorchDynamo/AOTAutograd output traced over real torch; it cannot be executed on symbolic tensors or translated to SMT within reach",
